@@ -296,9 +296,9 @@ func lockupInput(o tapeOp, blockNumber uint64) (string, []byte) {
 			miner, to = minerQi, []common.Address{localQi, extQi, recvFunded}[o.C%3]
 		}
 		in := append(append([]byte{}, miner.Bytes()...), to.Bytes()...)
-		in = append(in, byte(o.B%2))
+		in = append(in, byte(o.B/3%2))
 		ep := make([]byte, 4)
-		binary.BigEndian.PutUint32(ep, []uint32{1, 1, 2, 0, uint32(blockNumber/params.CoinbaseEpochBlocks) + 1}[o.D%5])
+		binary.BigEndian.PutUint32(ep, []uint32{1, 1, 1, 2, 0, uint32(blockNumber/params.CoinbaseEpochBlocks) + 1}[o.D%6])
 		return fn, append(append(in, ep...), g...)
 	case "unwrap-qi": // beneficiaryQi(20) value(32) etxGasLimit(8)
 		ben := []common.Address{localQi, localQi2, recvFunded, extQi}[o.B%4]
@@ -335,6 +335,15 @@ func (p *program) compileAll() {
 	}
 }
 
+// kindOf interprets the action-kind index.  The first action of every contract but the last is a call or a
+// creation three times out of four, so that call trees get some depth.
+func (p *program) kindOf(i, ai int, o tapeOp) string {
+	if ai == 0 && i < p.n-1 && o.K%4 != 0 {
+		return []string{"call", "call", "call", "create"}[o.K/4%4]
+	}
+	return p.kinds[o.K%len(p.kinds)]
+}
+
 // target picks a contract strictly after i (the call graph is a DAG, so every run terminates), or -1.
 func (p *program) target(i, sel int) int {
 	if i >= p.n-1 {
@@ -365,7 +374,7 @@ func (p *program) compile(i int, asInit bool, rt int) []byte {
 		if terminated {
 			break
 		}
-		kind := p.kinds[o.K%len(p.kinds)]
+		kind := p.kindOf(i, ai, o)
 		switch kind {
 		case "sstore":
 			v := marker(i, ai)
